@@ -1218,7 +1218,7 @@ const config_setting_t *config_setting_lookup_const(
     {
       char *q;
       long index = strtol(++p, &q, 10);
-      if(*q != ']')
+      if((*q != ']') || (index < 0) || ((unsigned long)index > UINT_MAX))
         return NULL;
 
       p = ++q;
